@@ -340,11 +340,17 @@ RebuildCopy(a, src) ==
     /\ UNCHANGED <<ctl, rstate, rmode, rrev, rcp, acked, nextW, calls>>
 
 \* VerifyRebuildReplica(a): chains compared, counter equalised, then RW
+\* sync.Task.AddReplica sets the rebuilding flag of the (open, WO) replica before it asks for the
+\* verification; a refused verification leaves it set
+VerifyRefused(a) ==
+    /\ rreb' = [rreb EXCEPT ![a] = @ \/ (cmode[a] = "WO" /\ rstate[a] = "open")]
+    /\ UNCHANGED <<ctl, rstate, rmode, rrev, rsnaps, rcp, rlog, rsnapAt, acked, nextW, calls>>
+
 VerifyRebuild(a, F) ==
     /\ Called("VerifyRebuild", [a |-> a, F |-> F])
     /\ served' = "" /\ sig' = <<>>
     /\ IF cmode[a] = "NONE" \/ RWs(cmode) = {} THEN
-            res' = "refused" /\ UNCHANGED <<ctl, env, acked, nextW, calls>>
+            res' = "refused" /\ VerifyRefused(a)
        ELSE IF cmode[a] = "RW" THEN
             res' = "ok" /\ UNCHANGED <<ctl, env, acked, nextW, calls>>
        ELSE IF cmode[a] # "WO" THEN
@@ -355,7 +361,7 @@ VerifyRebuild(a, F) ==
             IF (\/ rsnaps[a] # rsnaps[src]
                 \/ (rcp[a] # "" /\ \A i \in 1..Len(rsnaps[src]) : rsnaps[src][i] # rcp[a]))
                /\ "verifySkipsChain" \notin Bug THEN
-                 res' = "refused" /\ UNCHANGED <<ctl, env, acked, nextW, calls>>
+                 res' = "refused" /\ VerifyRefused(a)
             ELSE LET cm == [cmode EXCEPT ![a] = "RW"]
                  IN /\ res' = "ok"
                     /\ cmode' = cm
